@@ -29,7 +29,7 @@ ASSUMPTIONS = [
   "tolerance per entry (i,j): 1e-4 sqrt(r_i r_j) (r_i = largest reference magnitude in row/column i) + 1e-6 of the matrix scale, plus the float32 floor 8u(|M_ij| + dt|qDeriv_ij|)/dt of forming M - dt*qDeriv in single precision",
   "tendon armature (its velocity-dependent bias is differentiated by neither engine), muscles, dcmotor and joint/tendon actuatorfrcrange are not generated; worlds with an actuator force within 1e-3 of its forcerange bound are skipped",
 ]
-BUDGET = {"quick": dict(examples=400, seconds=150, workers=16), "thorough": dict(examples=10000, seconds=1500, workers=16)}
+BUDGET = {"quick": dict(examples=400, seconds=420, workers=16), "thorough": dict(examples=10000, seconds=1500, workers=16)}
 _CHAINS = [[], [], [], [["mixed", 5]], [["hinge", 4], ["slide", 3]], [["star", 6]], [["mixed", 9]]]
 TOL = 1e-4
 U32 = 6e-8
